@@ -4,6 +4,7 @@ import (
 	"bytes"
 	"encoding/hex"
 	"encoding/json"
+	"fmt"
 	"sort"
 	"testing"
 
@@ -71,8 +72,8 @@ type Plan12 struct {
 	DrainN   int      `json:"drain_n"` // Missing(n) used while draining after the last act
 	// MaxFetches > 0 sets trie.Sync's per-depth throttle (maxFetchesPerDepth, 16384 in the
 	// shipped tree, a variable under the verif overlay) for this run; 0 leaves the default.
-	MaxFetches int `json:"max_fetches,omitempty"`
-	Tape     []uint16 `json:"tape"`    // order of the concurrent local-presence checks inside ProcessNode
+	MaxFetches int      `json:"max_fetches,omitempty"`
+	Tape       []uint16 `json:"tape"` // order of the concurrent local-presence checks inside ProcessNode
 }
 
 func Gen12(r *simcore.Rand, tier string) any {
@@ -394,6 +395,23 @@ func (s *srcState) plantSubtrie(w ethdb.KeyValueWriter, sp string) {
 	}
 }
 
+// fetchCounters renders the non-zero per-depth counters in depth order.
+func fetchCounters(s *trie.Sync) string {
+	m := s.VerifFetches()
+	var ds []int
+	for d, n := range m {
+		if n != 0 {
+			ds = append(ds, d)
+		}
+	}
+	sort.Ints(ds)
+	out := ""
+	for _, d := range ds {
+		out += fmt.Sprintf(" %d:%d", d, m[d])
+	}
+	return "[" + out + " ]"
+}
+
 // ---- gated local reads
 
 type gatedReader struct {
@@ -604,9 +622,6 @@ func run12(p *Plan12, res *simcore.Result, sched *simsched.Sched) (*simcore.Viol
 		sort.Slice(fl, func(i, j int) bool { return fl[i].key() < fl[j].key() })
 		if got := len(paths) + len(codes); sync.VerifQueueLen() > 0 && (n == 0 || got < n) {
 			res.Probe("missing-throttled")
-			if len(paths) > 0 && len(paths[len(paths)-1]) >= 64 || got == 0 {
-				res.Probe("missing-throttled-storage-depth")
-			}
 		}
 		res.Events += len(paths) + len(codes)
 		return nil
@@ -712,7 +727,7 @@ func run12(p *Plan12, res *simcore.Result, sched *simsched.Sched) (*simcore.Viol
 				return v, lg
 			}
 			if len(fl) == 0 {
-				return simcore.Violf("sync-stuck", "Pending()=%d but Missing returns nothing and nothing is in flight (after %d deliveries, %d restarts)", sync.Pending(), deliveries, restarts), lg
+				return simcore.Violf("sync-stuck", "Pending()=%d but Missing returns nothing and nothing is in flight (after %d deliveries, %d restarts; %d requests still queued, per-depth in-flight counters %v, limit %d)", sync.Pending(), deliveries, restarts, sync.VerifQueueLen(), fetchCounters(sync), p.MaxFetches), lg
 			}
 		}
 		if v := deliver(0); v != nil {
